@@ -48,7 +48,7 @@ def area_weight_matrix_faces(mesh : SurfaceMesh, inverse : bool=False, format: s
         area = mesh.faces.get_attribute("area")
     else:
         area = face_area(mesh)
-    area = area.as_array(len(mesh.faces))
+    area = np.atleast_1d(area.as_array(len(mesh.faces))) # as_array squeezes a single-face mesh to a 0-d array
     if inverse:
         area = 1/area
     return sp.diags(area, format=format)
@@ -124,7 +124,7 @@ def volume_weight_matrix_cells(mesh: VolumeMesh, inverse: bool = False, sqrt: bo
         volume = mesh.cells.get_attribute("volume")
     else:
         volume = cell_volume(mesh)
-    V = volume.as_array(len(mesh.cells))
+    V = np.atleast_1d(volume.as_array(len(mesh.cells))) # as_array squeezes a single-cell mesh to a 0-d array
     if sqrt: V = np.sqrt(V)
     if inverse: V = 1/V
     return sp.diags(V, format=format)
